@@ -40,8 +40,8 @@ def extra_props(h, label):
         ps.append("C05")
     if "moffs" in h["code"] and label in ("C01|gpr", "C01|mem", "C06|ok-when-cpu-completes"):
         ps.append("C05")
-    if h["shape"].startswith("mem") and label in ("C06|err-when-cpu-faults", "C04|err-when-cpu-faults"):
-        ps.append("C09")  # a store to non-writable / load from non-readable memory is refused
+    if h["shape"].startswith("mem") and label in ("C06|err-when-cpu-faults", "C04|err-when-cpu-faults") and h["mnemonic"] not in ("Div", "Idiv"):
+        ps.append("C09")  # a store to non-writable / load from non-readable memory is refused (DIV/IDIV: the #DE part dominates, kept under C06)
     if label == "C04|err-when-cpu-faults":
         ps.append("C09")  # implicit stores of PUSH/CALL
     if label == "C19|no-panic" and h["expect"] == "implemented" and h["family"] in ("Data", "Control", "Stack"):
